@@ -19,6 +19,7 @@ EXTENDS Integers, Sequences, FiniteSets, SequencesExt, FiniteSetsExt, Functions,
 CONSTANTS Suite,        \* which families (see Cases)
           Part, NParts, \* a case d is explored iff Hash(d) % NParts = Part
           Keep,         \* sampling of the large families: one case in Keep (1 = all)
+          BugSweep,     \* negative control: the sweeps of _apply_kronecker_linops in forward order
           Seed, DoEmit
 
 VARIABLE c
@@ -67,7 +68,7 @@ SweepKron(As, sh, X, n) ==
   LET sz == Prod([k \in 1..Len(As) |-> sh[k][1]])
       q00 == [p \in 1..(sz * n) |-> X[((p - 1) % sz) + 1][((p - 1) \div sz) + 1]]     \* q0[:] = x
       sweep(q0, ii) ==
-        LET i == Len(As) + 1 - ii                \* for i in reversed(range(len(ops)))
+        LET i == IF BugSweep THEN ii ELSE Len(As) + 1 - ii      \* for i in reversed(range(len(ops)))
             szi == sh[i][2]
             ri == sz \div szi
         IN \* q0 viewed as (sz_i, n*r_i); q1 of shape (r_i, n*sz_i); q1[a, k*sz_i + b] = (op q0[:, k*r_i + a])[b]
@@ -175,6 +176,7 @@ Cases ==
   CASE Suite = "kron"   -> KronCases \cup TprodCases
     [] Suite = "block"  -> BlockCases \cup BdiagCases \cup SimpleCases \cup SubspaceCases
     [] Suite = "solve"  -> SolveCases \cup KsolveCases \cup FastdiagCases \cup CsrCases
+    [] Suite = "neg"    -> {<<"kron", <<<<2, 2>>, <<3, 3>>>>, kd, arg>> : kd \in {4, 8}, arg \in Args}
     [] Suite = "all"    -> KronCases \cup TprodCases \cup BlockCases \cup BdiagCases \cup SimpleCases
                            \cup SubspaceCases \cup SolveCases \cup KsolveCases \cup FastdiagCases \cup CsrCases
 
